@@ -748,13 +748,6 @@ Variable e : entry.
 Hypothesis Hok : fst (v7tar_header e true) = 0%Z.
 Let facts : v7tar_ok_facts e := v7tar_ok e Hok.
 
-Ltac v7_num o s k getter :=
-  unfold v7tar_header; cbn [snd];
-  eapply (hdr_num_strict (snd (v7tar_fields e true)) v7tar_template tar_checksum_v7 V7TAR_checksum_offset o _ s _ k);
-  [ reflexivity | apply v7tar_fields_inb | apply ck_ok_v7
-  | unfold v7tar_fields; cbv zeta; cbn [snd]; repeat rewrite <- app_assoc; cbn [app]; reflexivity
-  | v7_away | v7_away | leaf7 | reflexivity | cbn; lia | lia | apply (getter _ facts) ].
-
 Theorem v7tar_ok_mode : tar_atol (slice R_tar_mode_offset R_tar_mode_size (snd (v7tar_header e true))) = Z.land (e_mode e) 4095.
 Proof.
   unfold v7tar_header; cbn [snd].
@@ -866,3 +859,192 @@ Proof.
 Qed.
 
 End V7Ok.
+
+(* ------------------------------------------------------------------ gnutar *)
+Lemma hdr_field_window : forall ws tmpl ck cko o bs k ws1 ws2,
+  length tmpl = 512 -> Forall (inb 512) ws -> ck_ok cko ck ->
+  ws = ws1 ++ (o, bs) :: ws2 -> Forall (away o (length bs)) ws2 -> Forall (away (o + length bs) k) ws ->
+  (o + length bs + k <= cko \/ cko + 7 <= o) ->
+  slice o (length bs + k) (ck (apply_writes ws tmpl)) = bs ++ slice (o + length bs) k tmpl.
+Proof.
+  intros ws tmpl ck cko o bs k ws1 ws2 HL HI Hck Heq Ha1 Ha2 Ho. rewrite slice_split.
+  rewrite (hdr_field_slice ws tmpl ck cko o bs ws1 ws2 HL HI Hck Heq Ha1) by lia.
+  rewrite (hdr_untouched ws tmpl ck cko (o + length bs) k HL HI Hck Ha2) by lia. reflexivity.
+Qed.
+
+Lemma gnutar_format_octal_length : forall v s, length (snd (gnutar_format_octal v s)) = s.
+Proof.
+  intros. unfold gnutar_format_octal. cbv zeta.
+  destruct ((if v <? 0 then 0 else v) / zpow 8 s =? 0)%Z; cbn [snd]; [|apply repeat_length].
+  rewrite map_length. apply digits_be_length.
+Qed.
+
+Lemma gnutar_fn_length : forall v s mx,
+  length (snd (gnutar_format_number v s mx)) = if (v <? zpow 8 s)%Z then s else mx.
+Proof.
+  intros. unfold gnutar_format_number. destruct (v <? zpow 8 s)%Z.
+  - apply gnutar_format_octal_length.
+  - apply format_256_length.
+Qed.
+
+Lemma gnutar_fn_length_le : forall v s mx, s <= mx -> length (snd (gnutar_format_number v s mx)) <= mx.
+Proof. intros. rewrite gnutar_fn_length. destruct (v <? zpow 8 s)%Z; lia. Qed.
+
+Ltac leafg :=
+  unfold inb, away; cbn [fst snd length];
+  rewrite ?gnutar_format_octal_length, ?firstn_length;
+  repeat match goal with
+  | |- context [length (snd (gnutar_format_number ?v ?s ?mx))] =>
+      let H := fresh "Hl" in pose proof (gnutar_fn_length_le v s mx) as H;
+      generalize dependent (length (snd (gnutar_format_number v s mx))); intros
+  end;
+  unfold GNUTAR_name_offset, GNUTAR_name_size, GNUTAR_mode_offset, GNUTAR_mode_size, GNUTAR_uid_offset, GNUTAR_uid_size,
+    GNUTAR_uid_max_size, GNUTAR_gid_offset, GNUTAR_gid_size, GNUTAR_gid_max_size, GNUTAR_size_offset, GNUTAR_size_size,
+    GNUTAR_size_max_size, GNUTAR_mtime_offset, GNUTAR_mtime_size,
+    GNUTAR_checksum_offset, GNUTAR_checksum_size, GNUTAR_typeflag_offset, GNUTAR_linkname_offset, GNUTAR_linkname_size,
+    GNUTAR_uname_offset, GNUTAR_uname_size, GNUTAR_gname_offset, GNUTAR_gname_size, GNUTAR_rdevmajor_offset,
+    GNUTAR_rdevmajor_size, GNUTAR_rdevminor_offset, GNUTAR_rdevminor_size in *;
+  lia.
+
+Ltac g_forall := unfold gnutar_fields; cbv zeta; cbn [snd]; split_forall; try leafg.
+
+Lemma gnutar_fields_inb : forall name lk un gn e t, Forall (inb 512) (snd (gnutar_fields name lk un gn e t)).
+Proof. intros. g_forall. Qed.
+
+Lemma ck_ok_gnu : ck_ok GNUTAR_checksum_offset tar_checksum_gnu.
+Proof.
+  intros h o n HL Ho. unfold tar_checksum_gnu.
+  rewrite slice_put_other.
+  - apply slice_put_other; cbn [length]; unfold GNUTAR_checksum_offset in *; lia.
+  - rewrite put_length; rewrite ?gnutar_format_octal_length; cbn [length]; unfold GNUTAR_checksum_offset in *; lia.
+  - rewrite gnutar_format_octal_length. unfold GNUTAR_checksum_offset in *. lia.
+Qed.
+
+Theorem gnutar_header_length : forall name lk un gn e t, length (snd (gnutar_header name lk un gn e t)) = 512.
+Proof.
+  intros. unfold gnutar_header, tar_checksum_gnu. cbn [snd].
+  assert (HL : length (apply_writes (snd (gnutar_fields name lk un gn e t)) gnutar_template) = 512)
+    by (rewrite apply_writes_length; [reflexivity | apply gnutar_fields_inb]).
+  rewrite put_length; rewrite put_length; rewrite ?gnutar_format_octal_length; cbn [length]; rewrite ?HL;
+    unfold GNUTAR_checksum_offset; try lia.
+Qed.
+
+Lemma stops_nul : stops 8 [0]%Z.
+Proof. cbn. lia. Qed.
+
+Section GnuOk.
+Variables name lk un gn : list Z.
+Variable e : entry.
+Variable t : Z.
+Let h := snd (gnutar_header name lk un gn e t).
+
+Definition gnu_pre_num : list wr :=
+  [(GNUTAR_name_offset, firstn GNUTAR_name_size name)]
+  ++ wr_if (0 <? length lk) GNUTAR_linkname_offset (firstn GNUTAR_linkname_size lk)
+  ++ wr_if (0 <? length un) GNUTAR_uname_offset (firstn GNUTAR_uname_size un)
+  ++ wr_if (0 <? length gn) GNUTAR_gname_offset (firstn GNUTAR_gname_size gn).
+
+(* uid and gid: exact on [0, 2^62) whatever the status *)
+Theorem gnutar_uid_exact : (0 <= e_uid e < 4611686018427387904)%Z ->
+  tar_atol (slice R_tar_uid_offset R_tar_uid_size h) = e_uid e.
+Proof.
+  intros Hv. subst h. unfold gnutar_header. cbn [snd].
+  set (bs := snd (gnutar_format_number (e_uid e) GNUTAR_uid_size GNUTAR_uid_max_size)).
+  pose proof (gnutar_fn_length (e_uid e) GNUTAR_uid_size GNUTAR_uid_max_size) as Hlen. fold bs in Hlen.
+  assert (Hw : forall k, length bs + k = 8 ->
+     slice GNUTAR_uid_offset (length bs + k)
+       (tar_checksum_gnu (apply_writes (snd (gnutar_fields name lk un gn e t)) gnutar_template))
+     = bs ++ slice (GNUTAR_uid_offset + length bs) k gnutar_template).
+  { intros k Hk.
+    apply (hdr_field_window _ _ _ GNUTAR_checksum_offset _ _ _
+             (gnu_pre_num ++ [(GNUTAR_mode_offset, snd (gnutar_format_octal (Z.land (e_mode e) 4095) GNUTAR_mode_size))])).
+    - reflexivity.
+    - apply gnutar_fields_inb.
+    - apply ck_ok_gnu.
+    - unfold gnutar_fields, gnu_pre_num; cbv zeta; cbn [snd]. repeat rewrite <- app_assoc. cbn [app]. reflexivity.
+    - split_forall; try leafg.
+    - unfold gnutar_fields; cbv zeta; cbn [snd]. fold bs. split_forall; try leafg.
+    - leafg. }
+  destruct (e_uid e <? zpow 8 GNUTAR_uid_size)%Z eqn:E.
+  - change R_tar_uid_offset with GNUTAR_uid_offset. change R_tar_uid_size with (7 + 1).
+    change GNUTAR_uid_size with 7 in Hlen. rewrite <- Hlen. rewrite Hw by lia. rewrite Hlen.
+    change (slice (GNUTAR_uid_offset + 7) 1 gnutar_template) with [0%Z].
+    apply (gnutar_number_exact_8 (e_uid e) GNUTAR_uid_size [0%Z]); [unfold GNUTAR_uid_size; lia | assumption |].
+    rewrite E. apply stops_nul.
+  - change R_tar_uid_offset with GNUTAR_uid_offset. change R_tar_uid_size with (8 + 0).
+    change GNUTAR_uid_max_size with 8 in Hlen. rewrite <- Hlen. rewrite Hw by lia. rewrite Hlen.
+    change (slice (GNUTAR_uid_offset + 8) 0 gnutar_template) with (@nil Z).
+    apply (gnutar_number_exact_8 (e_uid e) GNUTAR_uid_size []); [unfold GNUTAR_uid_size; lia | assumption |].
+    rewrite E. reflexivity.
+Qed.
+
+Theorem gnutar_gid_exact : (0 <= e_gid e < 4611686018427387904)%Z ->
+  tar_atol (slice R_tar_gid_offset R_tar_gid_size h) = e_gid e.
+Proof.
+  intros Hv. subst h. unfold gnutar_header. cbn [snd].
+  set (bs := snd (gnutar_format_number (e_gid e) GNUTAR_gid_size GNUTAR_gid_max_size)).
+  pose proof (gnutar_fn_length (e_gid e) GNUTAR_gid_size GNUTAR_gid_max_size) as Hlen. fold bs in Hlen.
+  assert (Hw : forall k, length bs + k = 8 ->
+     slice GNUTAR_gid_offset (length bs + k)
+       (tar_checksum_gnu (apply_writes (snd (gnutar_fields name lk un gn e t)) gnutar_template))
+     = bs ++ slice (GNUTAR_gid_offset + length bs) k gnutar_template).
+  { intros k Hk.
+    apply (hdr_field_window _ _ _ GNUTAR_checksum_offset _ _ _
+             (gnu_pre_num ++ [(GNUTAR_mode_offset, snd (gnutar_format_octal (Z.land (e_mode e) 4095) GNUTAR_mode_size));
+                              (GNUTAR_uid_offset, snd (gnutar_format_number (e_uid e) GNUTAR_uid_size GNUTAR_uid_max_size))])).
+    - reflexivity.
+    - apply gnutar_fields_inb.
+    - apply ck_ok_gnu.
+    - unfold gnutar_fields, gnu_pre_num; cbv zeta; cbn [snd]. repeat rewrite <- app_assoc. cbn [app]. reflexivity.
+    - split_forall; try leafg.
+    - unfold gnutar_fields; cbv zeta; cbn [snd]. fold bs. split_forall; try leafg.
+    - leafg. }
+  destruct (e_gid e <? zpow 8 GNUTAR_gid_size)%Z eqn:E.
+  - change R_tar_gid_offset with GNUTAR_gid_offset. change R_tar_gid_size with (7 + 1).
+    change GNUTAR_gid_size with 7 in Hlen. rewrite <- Hlen. rewrite Hw by lia. rewrite Hlen.
+    change (slice (GNUTAR_gid_offset + 7) 1 gnutar_template) with [0%Z].
+    apply (gnutar_number_exact_8 (e_gid e) GNUTAR_gid_size [0%Z]); [unfold GNUTAR_gid_size; lia | assumption |].
+    rewrite E. apply stops_nul.
+  - change R_tar_gid_offset with GNUTAR_gid_offset. change R_tar_gid_size with (8 + 0).
+    change GNUTAR_gid_max_size with 8 in Hlen. rewrite <- Hlen. rewrite Hw by lia. rewrite Hlen.
+    change (slice (GNUTAR_gid_offset + 8) 0 gnutar_template) with (@nil Z).
+    apply (gnutar_number_exact_8 (e_gid e) GNUTAR_gid_size []); [unfold GNUTAR_gid_size; lia | assumption |].
+    rewrite E. reflexivity.
+Qed.
+
+Theorem gnutar_size_exact : (0 <= size_of e < two63)%Z ->
+  tar_atol (slice R_tar_size_offset R_tar_size_size h) = size_of e.
+Proof.
+  intros Hv. subst h. unfold gnutar_header. cbn [snd].
+  set (bs := snd (gnutar_format_number (size_of e) GNUTAR_size_size GNUTAR_size_max_size)).
+  pose proof (gnutar_fn_length (size_of e) GNUTAR_size_size GNUTAR_size_max_size) as Hlen. fold bs in Hlen.
+  assert (Hw : forall k, length bs + k = 12 ->
+     slice GNUTAR_size_offset (length bs + k)
+       (tar_checksum_gnu (apply_writes (snd (gnutar_fields name lk un gn e t)) gnutar_template))
+     = bs ++ slice (GNUTAR_size_offset + length bs) k gnutar_template).
+  { intros k Hk.
+    apply (hdr_field_window _ _ _ GNUTAR_checksum_offset _ _ _
+             (gnu_pre_num ++ [(GNUTAR_mode_offset, snd (gnutar_format_octal (Z.land (e_mode e) 4095) GNUTAR_mode_size));
+                              (GNUTAR_uid_offset, snd (gnutar_format_number (e_uid e) GNUTAR_uid_size GNUTAR_uid_max_size));
+                              (GNUTAR_gid_offset, snd (gnutar_format_number (e_gid e) GNUTAR_gid_size GNUTAR_gid_max_size))])).
+    - reflexivity.
+    - apply gnutar_fields_inb.
+    - apply ck_ok_gnu.
+    - unfold gnutar_fields, gnu_pre_num; cbv zeta; cbn [snd]. repeat rewrite <- app_assoc. cbn [app]. reflexivity.
+    - split_forall; try leafg.
+    - unfold gnutar_fields; cbv zeta; cbn [snd]. fold bs. split_forall; try leafg.
+    - leafg. }
+  destruct (size_of e <? zpow 8 GNUTAR_size_size)%Z eqn:E.
+  - change R_tar_size_offset with GNUTAR_size_offset. change R_tar_size_size with (11 + 1).
+    change GNUTAR_size_size with 11 in Hlen. rewrite <- Hlen. rewrite Hw by lia. rewrite Hlen.
+    change (slice (GNUTAR_size_offset + 11) 1 gnutar_template) with [0%Z].
+    apply (gnutar_number_exact_12 (size_of e) GNUTAR_size_size [0%Z]); [unfold GNUTAR_size_size; lia | assumption |].
+    rewrite E. apply stops_nul.
+  - change R_tar_size_offset with GNUTAR_size_offset. change R_tar_size_size with (12 + 0).
+    change GNUTAR_size_max_size with 12 in Hlen. rewrite <- Hlen. rewrite Hw by lia. rewrite Hlen.
+    change (slice (GNUTAR_size_offset + 12) 0 gnutar_template) with (@nil Z).
+    apply (gnutar_number_exact_12 (size_of e) GNUTAR_size_size []); [unfold GNUTAR_size_size; lia | assumption |].
+    rewrite E. reflexivity.
+Qed.
+
+End GnuOk.
